@@ -56,7 +56,7 @@ theorem absStep_sound {P : Prog} {ok : List Nat} {callF : CallF} (hspec : CallSp
     simp only [Option.some.injEq, Prod.mk.injEq] at hrv
     obtain ⟨h1, h2⟩ := hrv
     subst h1; subst h2
-    simp only [stepIns, stepRest, Except.ok.injEq, Bind.bind, Except.bind] at hstep
+    simp only [stepIns, stepRest, stepCore, res, applyEff, Except.ok.injEq, Bind.bind, Except.bind] at hstep
     subst hstep
     have := readWord_bind_const' s.rest d w x (by simpa [MSt.rest, MSt.withRest] using hx)
     rw [this]
